@@ -537,7 +537,10 @@ func C19(p *Prog, r *Run) {
 		// the generation picked in the scan is a solved one and the scan stops there
 		okSolved := false
 		for _, st := range FieldStores(ws, p.Field(PkgE, "Trial", "WinnerGeneration")) {
-			for _, g := range Guards(st.Block()) {
+			// (the outcomes known at the store include those of the edge over which a search result that is tested
+			// there - `i := firstSolved(); if i >= 0` - left the scan: c19SentinelGuards; such an edge leaves the scan
+			// at the element it found, so the scan stops there by construction)
+			for _, g := range c19SentinelGuards(Guards(st.Block())) {
 				if gt := wtm.Of(g.Cond); gt.Op == "field" && gt.Name == "Solved" && g.True {
 					okSolved = true
 				}
@@ -1002,7 +1005,9 @@ func C19(p *Prog, r *Run) {
 			var whyV []string
 			for k := 0; k < 4; k++ {
 				for _, lf := range retLeaves(wsFn, k) {
-					cached, found := false, c19FieldOutcome(tm, lf.Guards, "Solved", gens, nil) == 1
+					// (with what is known on the edge over which a tested search result left the scan: c19SentinelGuards)
+					lfGuards := c19SentinelGuards(lf.Guards)
+					cached, found := false, c19FieldOutcome(tm, lfGuards, "Solved", gens, nil) == 1
 					for _, g := range lf.Guards {
 						if GuardNilness(g, isWG) == -1 {
 							cached = true
@@ -1040,6 +1045,13 @@ func C19(p *Prog, r *Run) {
 							whyV = append(whyV, fmt.Sprintf("result %d reads the cached winner generation where it is not known to be there", k))
 						}
 					case c19ElemOf(base, gens, nil) && base.Op == "elem":
+						// the generation read is the one whose Solved was seen: the index it is read with is the index of
+						// the element tested (for the result of a search, the index it is known to be under the outcomes)
+						if len(base.Args) > 1 && base.Args[1].V != nil {
+							if c19FieldOutcome(tm, lfGuards, "Solved", gens, c19NarrowIndex(base.Args[1].V, c19LeafGuards(lf))) != 1 {
+								found = false
+							}
+						}
 						if !found {
 							whyV = append(whyV, fmt.Sprintf("result %d is taken from a generation that was not found solved", k))
 						}
@@ -1461,23 +1473,26 @@ func C19(p *Prog, r *Run) {
 				return true, "counts trials with Solved() and returns the count on every path"
 			}},
 			{"Trial.Solved", func(fn *ssa.Function, tm *Termer) (bool, string) {
+				// every way the result is produced (a returned constant, a merged value edge by edge, or the comparison
+				// `i >= 0` of a search result alternative by alternative: c19BoolLeaves)
 				okT, okF := false, false
-				for _, b := range fn.Blocks {
-					ret, isRet := b.Instrs[len(b.Instrs)-1].(*ssa.Return)
-					if !isRet {
-						continue
-					}
-					v := tm.Of(ret.Results[0]).String()
-					if v == "true" {
-						for _, g := range Guards(b) {
+				for _, lf := range c19BoolLeaves(fn, 0) {
+					switch {
+					case IsConstBool(lf.Val, true):
+						just := false
+						for _, g := range lf.Guards {
 							if gt := tm.Of(g.Cond); gt.Op == "field" && gt.Name == "Solved" && g.True && strings.Contains(gt.String(), "recv.Generations[*]") {
-								okT = true
+								just = true
 							}
 						}
-					} else if v == "false" {
+						if !just {
+							return false, "Solved returns true where no generation was found solved"
+						}
+						okT = true
+					case IsConstBool(lf.Val, false):
 						okF = true
-					} else {
-						return false, "Solved returns " + v
+					default:
+						return false, "Solved returns " + tm.Of(lf.Val).String()
 					}
 				}
 				if !okT || !okF {
